@@ -450,7 +450,7 @@ def run_workers(ck, designs, designs_dir, seeds):
     try:
       out, _ = p.communicate(timeout=1500)
     except subprocess.TimeoutExpired:
-      p.kill(); raise InfraError(f'worker for seed {seed} timed out')
+      p.kill(); raise leanio.MachineryError(f'worker for seed {seed} timed out')
     if p.returncode != 0 or not os.path.exists(outf):
       raise InfraError(f'worker for seed {seed} failed ({p.returncode}): {out[-2000:]}')
     results[seed] = json.load(open(outf))
